@@ -198,7 +198,8 @@ def sender(chk, db, rule):
     fns = [f for f in db.fns if f.get('rect') == 'nop::SimpleMethodSender' and 'body' in f]
     for f in every_instance([g for g in fns if g['n'] == 'SendMethod']):
         where = facts.site(f) + inst_tag(f)
-        paths = symx.paths_of(db, f, lambda c, e: False)
+        # private helpers of the sender (other than GetReturn, which has its own rule) are part of SendMethod
+        paths = symx.paths_of(db, f, lambda c, e: c.get('rect') == 'nop::SimpleMethodSender' and c['n'] != 'GetReturn')
         why = []
         full = [p for p in paths if all(p.status_facts().values())]
         for p in paths:
